@@ -199,7 +199,7 @@ def wgl2_gram_task(T):
 add_task('C07', 'block_separable:WeightedGroupL2[positive=False].prox_1group[gram]', wgl2_gram_task)
 
 
-def sparse_group_task(T, g):
+def sparse_group_task(T, g, shard=None):
     """WeightedL1GroupL2: value and prox_1group (prox of  s*alpha*(sum_j wf_j |u_j| + wg ||u||)  = BST o ST, per-FEATURE weights)"""
     import z3
     from pv import sym, symrun
@@ -236,12 +236,15 @@ def sparse_group_task(T, g):
         sq = lambda u: z3.Sum([(u[i] - x[i]) * (u[i] - x[i]) for i in range(d)]) / 2
         return [('global-min(per-feature-l1-weights)', hy, sq(r) + pen(r, nr) <= sq(v) + pen(v, nv))]
     check_contract(T, f'prox_1group[g={g}]', lambda: mk().prox_1group(np.array([R(t) for t in x], dtype=object), R(s), g), pre, post,
-                   strength='B', replay=dict(fn='contracts.groups:replay_sparse_group', args=dict(g=g)))
+                   strength='B', shard=shard, replay=dict(fn='contracts.groups:replay_sparse_group', args=dict(g=g)))
 
 
-for _g in (0, 1):
-    add_task('C07', f'block_separable:WeightedL1GroupL2.prox_1group[g={_g}]', sparse_group_task, strength='B',
-             tier=('thorough' if _g == 0 else 'quick'), g=_g)
+add_task('C07', 'block_separable:WeightedL1GroupL2.prox_1group[g=1]', sparse_group_task, strength='B', g=1)
+for _k in range(8):
+    # group of two features: 4 of its 113 path obligations stay undecided after 7 minutes each (z3 + cvc5): NOT claimed; kept runnable
+    # with `--tier extended`, in no MANIFEST tier
+    add_task('C07', f'block_separable:WeightedL1GroupL2.prox_1group[g=0]#{_k}', sparse_group_task, strength='B', tier='extended', g=0,
+             shard=(_k, 8))
 
 
 # ----------------------------------------------------------------------------- native replay
